@@ -36,6 +36,9 @@ CLAIMED = {
     'C13': dict(
         text="ares_getaddrinfo/ares_gethostbyname under AF_INET/AF_INET6/AF_UNSPEC with per-family outcomes (answer, CNAME chains, NODATA, NXDOMAIN, SERVFAIL, silence, truncation), hosts-file entries in a virtual file, lookups order 'bf'/'fb', and loss/duplication/reordering between the A and AAAA sub-queries. Every address carries a marker naming the packet or hosts line it came from; the delivered multiset of addresses, their families, TTL bounds, the canonical name/alias chain and the status must equal what the reference combination of the two sub-answers allows.",
         ref="5 C13", tech=TECH + "address-multiset oracle against a reference combination of per-family sub-answers", note=NOTE_COMMON + " An IPv4 literal looked up with AF_INET6 is not judged (legacy behaviour outside the statement)."),
+    'C14': dict(
+        text="Fault enumeration over a seeded family of short scenarios (channel init with options and virtual system files; every request kind driven to completion against a healthy virtual network, UDP and TCP-upgraded; cache hits; search lists; hosts-file lookups; server-list edits, reinit, cancel, dup, save-options; destroy). Each scenario is executed once failure-free to count its N allocator calls, then once per n in 1..N with exactly the n-th allocation returning NULL (quick tier: at most 500 evenly spread n per scenario). Verdict per execution: no sanitizer report; allocator ledger empty and no foreign free after ares_destroy + ares_library_cleanup; every accepted request got exactly one callback; a request that still reports success has the same answer shape as in the failure-free execution; and after the failure a fresh query on the same channel against the healthy network completes.",
+        ref="5 C14", tech=TECH + "exhaustive-per-scenario enumeration of the failing allocation index with ledger, differential and usability oracles + ASan/UBSan", note=NOTE_COMMON + " The allocator seam is the public ares_library_init_mem(); realloc failures keep the original block. AF_UNSPEC address lookups are excluded from the answer-shape comparison (either half may legitimately be missing)."),
     'C17': dict(
         text="Virtual servers implement RFC 7873 server behaviour in ten modes (no cookie support, echo, strict BADCOOKIE, rotating secrets, regression to no-cookie and back, malformed lengths, wrong client cookie echoes). A per-(channel, server) reference model of the client state machine is fed every transmission and every reply the library read: client cookie stable while source address and server are unchanged and regenerated when they change, server cookie echoed exactly as last validly learned, replies with a missing/mismatched client cookie dropped once support was seen, at most the allowed consecutive BADCOOKIE resends before TCP, and fall back to cookie-less operation within the regression period on a virtual clock.",
         ref="5 C17", tech=TECH + "RFC 7873 reference state machine over recorded transmissions/reads under a virtual clock", note=NOTE_COMMON),
